@@ -8,9 +8,11 @@ use crate::{
 };
 
 use super::{
-    map::Map, r#type::IntoType, string::AstString, ClassType, CompilationState, Compile,
-    CompiledItem, Dependencies, Dependency, Expr, Function, Ident, List, Number, TypeLayout,
-    TypecheckFlags,
+    map::Map,
+    r#type::{IntoType, NativeType, StrWrapper},
+    string::AstString,
+    ClassType, CompilationState, Compile, CompiledItem, Dependencies, Dependency, Expr, Function,
+    Ident, List, Number, TypeLayout, TypecheckFlags,
 };
 
 #[derive(Debug)]
@@ -127,6 +129,17 @@ impl CompileTimeEvaluate for Value {
 }
 
 impl Value {
+    /// The length of a string literal is known at compile time, but a variable can be given a string of
+    /// another length later (`s += ..`, `s = ..` in a nested block): only a constant keeps the length.
+    fn forget_str_len_unless_const(ty: TypeLayout, ident: &Ident) -> TypeLayout {
+        match ty {
+            TypeLayout::Native(NativeType::Str(StrWrapper(Some(_)))) if !ident.is_const() => {
+                TypeLayout::Native(NativeType::Str(StrWrapper::unknown_size()))
+            }
+            ty => ty,
+        }
+    }
+
     pub fn associate_with_ident(&self, ident: &mut Ident, user_data: &AssocFileData) -> Result<()> {
         match self {
             Value::Function(ref f) => {
@@ -142,6 +155,7 @@ impl Value {
             }
             Value::String(ref string) => {
                 let ty = string.for_type()?.get_owned_type_recursively();
+                let ty = Self::forget_str_len_unless_const(ty, ident);
                 ident.link_force_no_inherit(user_data, Cow::Owned(ty))?;
             }
             Value::MathExpr(ref math_expr) => {
@@ -158,6 +172,7 @@ impl Value {
                     )
                 }
 
+                let ty = Self::forget_str_len_unless_const(ty, ident);
                 ident.link_force_no_inherit(user_data, Cow::Owned(ty))?;
             }
             Value::Boolean(ref boolean) => {
